@@ -95,9 +95,6 @@ func checkSolid(s solid, wantVolume float64, haveVolume bool) {
 	if haveVolume {
 		zz.AssertNear(vol6/6, wantVolume, s.tag+": enclosed volume equals the closed form")
 	}
-	if s.normals {
-		zz.Assert(s.m.HasFloat3Attribute(modeling.NormalAttribute), s.tag+": vertex normals are supplied")
-	}
 	if s.normals && s.m.HasFloat3Attribute(modeling.NormalAttribute) {
 		na := s.m.Float3Attribute(modeling.NormalAttribute)
 		for t := 0; t < T; t++ {
